@@ -99,6 +99,8 @@ func checkC01(c *Ctx) {
 	c1Separators(c, "R1.5")
 	c.Rule("R1.14", "pooled buffers are released at most once (a buffer freed twice is handed to two entries at the same time, whose bytes then interleave)", 3)
 	c.As(map[string]string{"R8.4": "R1.14"}, func() { c8SingleRelease(c) })
+	c.Rule("R1.15", "panics are recovered only around calls that have written nothing yet (String, Error): never around an encoder call that writes an opening delimiter before running user code", 1)
+	c1NoRecoverAroundStructure(c, "R1.15")
 	c1NilGuards(c, "R1.6", true)
 	c1Fallback(c, "R1.7")
 	c1Errors(c, "R1.8")
@@ -2268,4 +2270,70 @@ func escapedBytes(v ssa.Value, depth int) bool {
 		return len(x.Edges) > 0
 	}
 	return false
+}
+
+// c1NoRecoverAroundStructure: a function of the library that recovers from panics (a deferred literal or function that
+// calls recover itself) hands no encoder a composite to write in the protected region. AddObject / AddArray /
+// AppendObject / AppendArray write the key and the opening delimiter before they run the user's marshaler: a panic
+// recovered around them leaves the delimiter unclosed in the buffer, and the entry - completed as if nothing had
+// happened - reaches the sink unbalanced. (Recovering around String()/Error() is fine: nothing was written yet.)
+func c1NoRecoverAroundStructure(c *Ctx, rule string) {
+	composite := map[string]bool{"AddObject": true, "AddArray": true, "AppendObject": true, "AppendArray": true, "OpenNamespace": true}
+	n := 0
+	var bad []string
+	c.EachRootFunc(func(fn *ssa.Function) {
+		if fn.Pkg == nil || fn.Parent() != nil {
+			return
+		}
+		var rec *ssa.Defer
+		AllInstrs(fn, func(i ssa.Instruction) {
+			df, ok := i.(*ssa.Defer)
+			if !ok {
+				return
+			}
+			var g *ssa.Function
+			if mk, ok := df.Call.Value.(*ssa.MakeClosure); ok {
+				g, _ = mk.Fn.(*ssa.Function)
+			} else if sc := df.Call.StaticCallee(); sc != nil && len(sc.Blocks) > 0 {
+				g = sc
+			}
+			if g == nil {
+				return
+			}
+			for _, c2 := range Calls(g) {
+				if CallBuiltin(c2) == "recover" {
+					rec = df
+				}
+			}
+		})
+		if rec == nil {
+			return
+		}
+		n++
+		for _, cl := range CallsDeep(fn) {
+			cc := cl.Common()
+			if !cc.IsInvoke() || !composite[cc.Method.Name()] {
+				continue
+			}
+			tn := TypeName(cc.Value.Type())
+			if !strings.HasSuffix(tn, "zapcore.ObjectEncoder") && !strings.HasSuffix(tn, "zapcore.ArrayEncoder") && !strings.HasSuffix(tn, "zapcore.Encoder") {
+				continue
+			}
+			// (a marshaler of the library's own - the error-list wrapper, whose elements are encoded under a recover
+			// of their own before anything is written - is no user code)
+			own := false
+			if len(cc.Args) > 0 {
+				if mi, isMI := cc.Args[len(cc.Args)-1].(*ssa.MakeInterface); isMI {
+					if nt, isN := types.Unalias(deref(mi.X.Type())).(*types.Named); isN && nt.Obj().Pkg() != nil && strings.HasPrefix(nt.Obj().Pkg().Path(), ZapPath) {
+						own = true
+					}
+				}
+			}
+			if own {
+				continue
+			}
+			bad = append(bad, FuncKey(fn)+": "+cc.Method.Name()+" at "+c.Pos(cl.Pos()))
+		}
+	})
+	c.Check(len(bad) == 0 && n >= 2, rule, "recovering functions", "no-composite-under-recover", token.NoPos, "%d functions of the library recover from panics; none of them hands an encoder a composite (AddObject, AddArray, AppendObject, AppendArray, OpenNamespace) inside the protected region - a recovered panic would leave the opening delimiter unclosed: %v", n, bad)
 }
